@@ -90,6 +90,13 @@ EPFS_TOK16 = ['%(', ')', '[', ']', 's', 'var', 'if', 'in', 'else', ' x',
 
 CORPUS = [
     'plain text\nonly',
+    # entity references directly behind end tags and continuation tags
+    '<dtml-if a>x</dtml-if>&dtml.url_quote-b;&dtml-c;<dtml-in s>y'
+    '<dtml-else>&dtml.upper.html_quote-d;</dtml-in>&dtml-e;\n'
+    '<dtml-with o>z</dtml-with>&dtml.lower-f;',
+    # variables called like the tag itself / like other tags
+    '<dtml-var var>',
+    '<dtml-var var upper>|<dtml-var if>|<dtml-var in size=3>|<dtml-var end>',
     '<dtml-var x>',
     '<dtml-var name=x>',
     '<dtml-var expr="x">',
@@ -153,6 +160,8 @@ CORPUS = [
 
 EPFS_CORPUS = [
     'plain %% text (x) %s',
+    '%(var)s',
+    '%(var var)s and %(if)s and %(in size=3)s',
     '%(x)s',
     '%(x)10.2f and %(y lower upper)s',
     '%(var x fmt=s null="n" size=3 etc=".")s',
